@@ -336,7 +336,8 @@ Definition ins_compare (c : ctx) (i : insk) (v : val) (o : Z) (right : bytes) (p
   | InsNil => CErr EUnsupported      (* a nil inspector would be dereferenced *)
   end.
 
-Definition split_path (p : bytes) : list bytes := split_byte 46 p.
+(* bytealg.AppendSplit(buf[:0], path, ".", -1): nothing for the empty path *)
+Definition split_path (p : bytes) : list bytes := match p with [] => [] | _ => split_byte 46 p end.
 
 (* Ctx.cmp *)
 Definition ctx_cmp (c : ctx) (path : bytes) (o : Z) (right : bytes) : ctx * bool :=
